@@ -400,9 +400,14 @@ def check_output(
             obj = out[obj_getter]
             validated = _try_validate(obj)
             if isinstance(out, tuple):
-                out = list(out)
-                out[obj_getter] = validated
-                out = tuple(out)
+                items = list(out)
+                items[obj_getter] = validated
+                # keep the type of the result: a namedtuple is a tuple too
+                out = (
+                    out._make(items)  # type: ignore[attr-defined]
+                    if hasattr(out, "_make")
+                    else type(out)(items)
+                )
             else:
                 out[obj_getter] = validated
             return out
